@@ -112,9 +112,10 @@ Proof.
   assert (Hr : rnd (fst (apply_op fixed c s o)) = rnd s) by (unfold rnd; rewrite K3, K7; reflexivity).
   unfold Pend. rewrite K2, Hr. clear K1 K2 K3 K4 K5 K6 K7 K8 K9 Hr.
   assert (Q : pending (fst (apply_op fixed c s o)) = pending s \/ (cur s = 0 \/ rnd s <= 1)).
-  { destruct o; cbn [apply_op fst].
+  { destruct o; cbn [apply_op op_st fst].
     - left. destruct (drainh s && negb (n =? 0)%Z); [|reflexivity].
       destruct (set_bip_form c (bip s - n)%Z s) as [b0 [e0 ->]]; reflexivity.
+    - left; reflexivity.
     - left. destruct (set_bip_form c (bip s + d)%Z s) as [b0 [e0 ->]]; reflexivity.
     - left; reflexivity.
     - left; reflexivity.
@@ -248,7 +249,7 @@ Lemma Rt_adv c s m : 1 <= bpg c -> Rb c s m -> Inv s -> enabled fixed s ->
   exists m', mrun (tstep c) m (snd (advance fixed c s)) = Some m' /\ Rb c (fst (advance fixed c s)) m'.
 Proof.
   intros Hb [H P] (_ & _ & _ & _ & I5) En. unfold advance. unfold enabled in En.
-  destruct (pc s) as [[]| | |] eqn:Epc.
+  destruct (pc s) as [[]| | | |] eqn:Epc.
   - (* GWS *) same_class Epc H P.
   - (* GSg *)
     pose proof H as H0. unfold Rt in H0. rewrite Epc in H0. cbn [class_of] in H0.
@@ -387,10 +388,13 @@ Proof.
            split; [lia|]. intro Q. rewrite All by lia. reflexivity.
         -- change (LtPre s2 m). rewrite D1. unfold LtPre. change (cur s2) with 1. change (np s2) with (np s).
            rewrite R2. repeat split; auto; try lia.
-  - (* BWS *) same_class Epc H P.
+  - (* BWS *) destruct (0 <? pf s)%Z; [|same_class Epc H P].
+    exists m. split; [reflexivity|]. split; [|exact P].
+    eapply Rt_transfer; [simpl pc; rewrite Epc; reflexivity | simpl pc; intro; discriminate
+                        | reflexivity | reflexivity | reflexivity | auto | exact H].
   - (* BSg *)
     destruct (set_bip_form c 1%Z (set_drainh true s)) as [b [e ->]]. same_class Epc H P.
-  - (* BSd *) unfold await_end. destruct (endev s).
+  - (* BSd *) unfold await_end. change (endev (set_pf ?a ?x)) with (endev x). destruct (endev s).
     + unfold end_ball. same_class Epc H P.
     + exists m. split; [reflexivity|]. split; [|exact P].
       eapply Rt_transfer; [simpl pc; rewrite Epc; reflexivity | simpl pc; intro; discriminate
@@ -414,6 +418,7 @@ Proof.
     apply goto_t; [discriminate | | exact P].
     eapply Rt_transfer; [simpl pc; rewrite Epc; reflexivity | | reflexivity | reflexivity | reflexivity | auto | exact H].
     intros _. right. apply orb_true_iff in En as [En|En]; [left; exact En | right; apply I5; exact En].
+  - (* WaitEmpty *) same_class Epc H P.
   - (* Done *) exists m. split; [reflexivity|]. split; assumption.
 Qed.
 
@@ -440,7 +445,7 @@ Proof.
     - intros s m [H HI] En. destruct (Rt_adv c s m Hb H HI En) as [m' [E R]].
       exists m'. split; [exact E|]. split; [exact R|].
       destruct (Rg_adv c s (g_of s) (conj eq_refl HI) En) as [g' [_ [_ HI']]]. exact HI'.
-    - intros s m H. exists m. split; [reflexivity | exact H].
+    - intros s m H _. exists m. split; [reflexivity | exact H].
     - split; [apply Rb_init | apply Rg_init]. }
   destruct HS as [m' [E _]]. exists m'. unfold trace, out0. rewrite mrun_app. cbn. exact E.
 Qed.
